@@ -227,7 +227,7 @@ def walk_through_locals(fn, e, depth=4, _seen=None):
                 yield from walk_through_locals(fn, srcs[0][1], depth - 1, _seen)
 
 
-def deep_nodes(ctx, fn, e, depth=2, _seen=None, through_locals=False):
+def deep_nodes(ctx, fn, e, depth=2, _seen=None, through_locals=False, skip=None):
     """nodes of expression e, plus the bodies of workspace fns called inside it (transitively, `depth` levels);
     with through_locals also the initialisers / assigned values of the locals read.  yields (fn, node)."""
     _seen = _seen if _seen is not None else set()
@@ -259,9 +259,9 @@ def deep_nodes(ctx, fn, e, depth=2, _seen=None, through_locals=False):
                     r = n['res']
                     cal = {'path': r['path'], 'resolved': n.get('resolved')} if r.get('r') == 'def' and r.get('dk') in ('Fn', 'AssocFn') else None
                 for lf in (ctx.pv.local_fns(cal) if cal else []):
-                    if lf.key not in _seen and not lf.from_macro:
+                    if lf.key not in _seen and not lf.from_macro and not (skip and skip(lf)):
                         _seen.add(lf.key)
-                        yield from deep_nodes(ctx, lf, lf.body, depth - 1, _seen, through_locals)
+                        yield from deep_nodes(ctx, lf, lf.body, depth - 1, _seen, through_locals, skip)
         for key, v in n.items():
             if isinstance(v, (dict, list)) and not key.startswith('_'):
                 stack.append(v)
